@@ -287,6 +287,56 @@ def gen_value_program(rng, expand=False, state=None):
             store.append("feature %s {\n%s} %s;" % (tag, blk, tag))
     return "\n".join(head + named_feats) + "\n", "\n".join(head + expanded_feats) + "\n"
 
+def gen_class_program(rng):
+    """glyph-class syntax: named classes, bracketed classes mixing plain names, ranges and @references in every order (names before a
+    reference, after it, between two), nested definitions — used by single substitutions, single and pair positioning"""
+    low = list("abcdefgh"); up = list("ABCDEFGH")
+    lines = ["languagesystem DFLT dflt;"]
+    named = {}                                     # name -> lower-case glyph list
+    def expr(pool_names, want=None):
+        """a bracketed class over lower-case glyphs: (text, glyph list); items in random order of kinds"""
+        items = []; glyphs = []
+        for _ in range(rng.randint(1, 4)):
+            k = rng.below(4)
+            if k == 0 and pool_names:
+                nm = rng.choice(pool_names); items.append("@" + nm); glyphs += named[nm]
+            elif k == 1:
+                i = rng.randint(0, 5); j = rng.randint(i + 1, min(7, i + 3)); items.append("%s-%s" % (low[i], low[j])); glyphs += low[i:j + 1]
+            else:
+                g = rng.choice(low); items.append(g); glyphs.append(g)
+        return "[" + " ".join(items) + "]", glyphs
+    for i in range(rng.randint(1, 3)):
+        t, gl = expr(sorted(named))
+        nm = "K%d" % i; named[nm] = gl; lines.append("@%s = %s;" % (nm, t))
+    def upper(t): return "".join(c.upper() if c.isalpha() and c not in "K" else c for c in t)
+    for nm in sorted(named): lines.append("@%sU = %s;" % (nm, "[" + " ".join(g.upper() for g in named[nm]) + "]"))
+    feats = []
+    for tag in rng.sample(["ss01", "ss02", "kern", "dist", "palt"], rng.randint(2, 4)):
+        body = []
+        if tag.startswith("ss"):
+            t, gl = expr(sorted(named))
+            if len(set(gl)) == len(gl):
+                # the replacement class: the same expression over the upper-case twins
+                t2 = t
+                for nm in sorted(named, reverse=True): t2 = t2.replace("@" + nm, "@@" + nm)
+                t2 = "".join(c.upper() if c in "abcdefgh" else c for c in t2)
+                for nm in sorted(named, reverse=True): t2 = t2.replace("@@" + nm.upper(), "@" + nm + "U").replace("@@" + nm, "@" + nm + "U")
+                body.append("sub %s by %s;" % (t, t2))
+            else:
+                body.append("sub %s by %s;" % (gl[0], gl[0].upper()))
+        elif tag == "kern":
+            for _ in range(rng.randint(1, 3)):
+                t1, _g1 = expr(sorted(named)); t2, _g2 = expr(sorted(named))
+                body.append("pos %s %s %d;" % (t1, t2, rng.randint(-80, -1)))
+        else:
+            seen = set()
+            for _ in range(rng.randint(1, 2)):
+                t, gl = expr(sorted(named))
+                if seen & set(gl): continue
+                seen |= set(gl); body.append("pos %s %d;" % (t, rng.randint(-40, 40) or 7))
+        if body: feats.append("feature %s {\n  %s\n} %s;" % (tag, "\n  ".join(body), tag))
+    return "\n".join(lines + feats) + "\n", [".notdef", "space"] + low + up
+
 def named_equals_expanded(named, expanded):
     """a reference <NAME> means what its definition says: both texts compile to the same tables"""
     try: a = compile_fea(named)
@@ -315,7 +365,9 @@ def sweeps(tier, rng):
         from props.C07 import gen_feature_program
         n = 240 if tier == "quick" else 500 if tier == "search" else 6000
         for i in range(n):
-            if i % 3 == 2:
+            if i % 4 == 3:
+                text, order = gen_class_program(rng)
+            elif i % 3 == 2:
                 P2 = gen_program2(rng); text = to_fea2(P2); order = [".notdef"] + P2["base"] + MARKS + P2["extra"]
             elif i % 2:
                 text, expanded = gen_value_program(rng); order = None
@@ -891,3 +943,56 @@ def _interp_sweep2(tier, rng):
 _sweeps_stage2 = sweeps
 def sweeps(tier, rng):
     return _sweeps_stage2(tier, rng) + [Sweep("harfbuzz-vs-rule-text-flags", lambda: _interp_sweep2(tier, rng))]
+
+# ------------------------------------------------------------------ third family: rules of different kinds written INLINE in one feature
+def _interp_sweep3(tier, rng):
+    """one feature block holding single, multiple, deleting (`by NULL`), ligature and alternate rules in random order, with no named
+    lookups. Every rule has input glyphs of its own and produces glyphs no rule reads, so however the compiler groups the rules
+    into lookups the meaning is the same: every rule applies to its own input. HarfBuzz shapes the compiled font."""
+    from lib.hb import HBFont
+    from fontTools.fontBuilder import FontBuilder
+    from fontTools.feaLib.builder import addOpenTypeFeaturesFromString
+    from fontTools.feaLib.error import FeatureLibError
+    from props.C07 import _box
+    n = 120 if tier == "quick" else 250 if tier == "search" else 3000
+    for i in range(n):
+        k = rng.randint(2, 7)
+        ins = ["i%02d" % j for j in range(3 * k)]; outs = ["o%02d" % j for j in range(3 * k)]
+        order = [".notdef", "sep"] + ins + outs
+        rules = []; lines = []; ip = 0; op = 0
+        for r in range(k):
+            kind = rng.choice(["single", "multiple", "delete", "delete", "ligature", "ligature", "alternate"])
+            if kind == "single": a = [ins[ip]]; b = [outs[op]]; ip += 1; op += 1; lines.append("sub %s by %s;" % (a[0], b[0]))
+            elif kind == "multiple":
+                m = rng.randint(2, 3); a = [ins[ip]]; b = outs[op:op + m]; ip += 1; op += m; lines.append("sub %s by %s;" % (a[0], " ".join(b)))
+            elif kind == "delete": a = [ins[ip]]; b = []; ip += 1; lines.append("sub %s by NULL;" % a[0])
+            elif kind == "ligature":
+                m = rng.randint(2, 3); a = ins[ip:ip + m]; b = [outs[op]]; ip += m; op += 1; lines.append("sub %s by %s;" % (" ".join(a), b[0]))
+            else:
+                a = [ins[ip]]; b = [outs[op]]; ip += 1; lines.append("sub %s from [%s %s];" % (a[0], outs[op], outs[op + 1])); op += 2
+            rules.append((a, b))
+        fea = "languagesystem DFLT dflt;\nfeature test {\n  %s\n} test;\n" % "\n  ".join(lines)
+        bad = None
+        try:
+            adv = {g: 400 + 3 * j for j, g in enumerate(order)}
+            fb = FontBuilder(1000, isTTF=True); fb.setupGlyphOrder(order); fb.setupCharacterMap({0xE000 + j: g for j, g in enumerate(order[1:])})
+            fb.setupGlyf({g: _box(adv[g]) for g in order}); fb.setupHorizontalMetrics({g: (adv[g], 20) for g in order})
+            fb.setupHorizontalHeader(ascent=800, descent=-200); fb.setupNameTable({"familyName": "Gen11c", "styleName": "R"}); fb.setupOS2(); fb.setupPost()
+            addOpenTypeFeaturesFromString(fb.font, fea)
+            b_ = io.BytesIO(); fb.font.save(b_)
+            h = HBFont(b_.getvalue(), order)
+            gid = {g: j for j, g in enumerate(order)}
+            seq = []; want = []
+            for a, b in rules:
+                seq += a + ["sep"]; want += b + ["sep"]
+            got = [g[0] for g in h.shape("".join(chr(0xE000 + gid[g] - 1) for g in seq), features={"test": True})]
+            if got != want: bad = "glyphs %r: the compiled font gives %r, the rules say %r\n%s" % (seq, got, want, fea)
+        except FeatureLibError as e:
+            bad = "feaLib rejects rules it accepts one by one: %r\n%s" % (e, fea)
+        except Exception as e:
+            bad = "generator/compile failed: %r\n%s" % (e, fea)
+        yield (("inline", i), bad)
+
+_sweeps_stage3 = sweeps
+def sweeps(tier, rng):
+    return _sweeps_stage3(tier, rng) + [Sweep("harfbuzz-vs-inline-rules", lambda: _interp_sweep3(tier, rng))]
